@@ -44,20 +44,20 @@ prop('C03',
      title='Adding and subtracting elapsed time is exact or refused, never wrapped',
      verus=['datetime', 'date', 'iters'],
      twin=['datetime', 'date', 'iters', 'zoned'],
-     uncovered=['Add/Sub<core::time::Duration> impls of the date and date-time types (std Duration conversion)', 'Add/Sub<Days>, <Months> on DateTime<Tz> (C04/C08)'],
+     uncovered=['AddAssign/SubAssign<core::time::Duration> for NaiveDateTime', 'Add/Sub<Days>, <Months> operator forms on DateTime<Tz> (their checked forms: C04/C08)'],
      text='Verus proves NaiveDateTime::checked_add_signed/checked_sub_signed/signed_duration_since (exact instant or refusal exactly when not representable), '
           'NaiveDate::add_days/checked_add_days/checked_sub_days/checked_add_signed/checked_sub_signed/signed_duration_since for every u64/i32/TimeDelta argument, '
           'the operator forms (= checked form + expect), the day/week iterators (step 1/7, end at the limit, exact size_hint), and the zone-aware forms DateTime<Tz>::checked_add_signed / '
           'checked_sub_signed / with_timezone / to_utc generically in Tz (same instants whatever the offset: the provided method TimeZone::from_utc_datetime keeps the UTC field, proved on its default body; '
           'a scan checks that no impl overrides it) on the real text. Also proved: the operator forms on every type (NaiveDate +/- TimeDelta, +/- Days, date - date; '
           'NaiveDateTime +/- TimeDelta; DateTime<Tz> +/- TimeDelta, DateTime<Tz> - DateTime<Tz>, DateTime<Tz>::signed_duration_since across two zones) as checked form + expect with the documented '
-          'panic condition as precondition, and every AddAssign/SubAssign<TimeDelta>.')
+          'panic condition as precondition, and every AddAssign/SubAssign<TimeDelta>; the core::time::Duration forms (+, -) of NaiveDateTime and (+, -, +=, -=) of DateTime<Tz> over TimeDelta::from_std.')
 
 prop('C07',
      title='Time-of-day arithmetic wraps by whole days and honours leap-second operands',
      verus=['time', 'datetime'],
      twin=['time', 'datetime'],
-     uncovered=['AddAssign/SubAssign<core::time::Duration>', 'deprecated panicking constructors from_hms* (expect wrappers)'],
+     uncovered=['deprecated panicking constructors from_hms* (expect wrappers)'],
      text='Verus proves every NaiveTime constructor (accepted exactly for h<24, m<60, s<60, nano<1e9 or <2e9 on second 59), accessor, single-field replacement, '
           'overflowing_add_signed/sub_signed against the documented leap-line model (stay in / leave / skip the leap second as if it were the only one), '
           'signed_duration_since on the joint leap line (antisymmetric), offset shifts, and the date-time forms with the carry applied to the date.')
@@ -66,13 +66,12 @@ prop('C04',
      title='Zone-aware date-times: one instant, many wall clocks',
      verus=['datetime', 'time'],
      kani=['vk_fixed_offset_ctor', 'vk_dt_eq_ord_hash', 'vk_dt_from_utc_conversions', 'vk_dt_from_local', 'vk_dt_wallclock_date_getters', 'vk_dt_wallclock_time_getters', 'vk_dt_map_local_any_zone',
-           'vk_dt_with_year_any_zone', 'vk_dt_with_month_day_any_zone', 'vk_dt_with_day0_ordinal_any_zone', 'vk_dt_with_clock_any_zone', 'vk_dt_months_any_zone', 'vk_dt_days_any_zone'],
+           'vk_dt_with_year_any_zone', 'vk_dt_with_month_day_any_zone', 'vk_dt_with_day0_ordinal_any_zone', 'vk_dt_with_clock_any_zone', 'vk_dt_months_any_zone', 'vk_dt_days_any_zone', 'vk_dt_with_time_any_zone_light'],
      kani_thorough=['vk_dt_wallclock_week_getters', 'vk_dt_with_time', 'vk_dt_with_time_fields', 'vk_dt_months', 'vk_dt_with_year', 'vk_dt_with_month', 'vk_dt_with_day', 'vk_dt_with_ordinal',
                     'vk_dt_with_time_any_zone'],
      kani_timeout=3000,
      twin=['zoned', 'datetime'],
-     uncovered=['DateTime<Tz>::with_time for every zone: thorough tier only',
-                'formatting of DateTime (core::fmt)', 'time zones other than Utc / FixedOffset (Local is C05)', 'DateTime::naive_local/date_naive (documented to panic out of range)'],
+     uncovered=[                'formatting of DateTime (core::fmt)', 'time zones other than Utc / FixedOffset (Local is C05)', 'DateTime::naive_local/date_naive (documented to panic out of range)'],
      text='Verus proves the offset shifts on the real text: NaiveTime::overflowing_add/sub_offset (sub-second field kept, day carry in {-1,0,1}), '
           'NaiveDateTime::checked_add/sub_offset (Some exactly when the other reading stays in range, wall = utc +/- offset exactly) and overflowing_add/sub_offset '
           '(always exact thanks to the one-day sentinels). Kani proves for every UTC date-time x every offset in (-24h, 24h): FixedOffset::east_opt/west_opt, '
@@ -85,7 +84,7 @@ prop('C05',
      title='Local time follows the zone data: offsets, gaps and folds',
      verus=['tz', 'tzrule'],
      kani=['vk_tzstring_offset', 'vk_tzstring_rule_time', 'vk_tzstring_rule_time_extended'],
-     bounded=['vk_tz_find_type_bounded', 'vk_tz_from_local_classify_bounded', 'vk_tz_validate_bounded'],
+     bounded=['vk_tz_find_type_bounded', 'vk_tz_from_local_classify_bounded', 'vk_tz_validate_bounded', 'vk_tzstring_rule_day_bounded'],
      twin=['tz'],
      uncovered=['POSIX TZ rule lookups: only safety, result shape and earliest-first ordering are proved; that the DST interval tests pick the prescribed type for every instant is covered by the tz twin only',
                 'Local / Cache::offset glue (reads environment and file system)', 'zones with leap-second records', 'zoneinfo database enumeration (configurations)',
@@ -119,7 +118,7 @@ prop('C08',
      kani=['vk_date_with_month', 'vk_date_with_day', 'vk_date_with_ordinal', 'vk_date_with_year', 'vk_date_add_months', 'vk_date_sub_months',
            'vk_date_weekday_of_month', 'vk_date_years_since', 'vk_date_quarter_ce_dim', 'vk_month_num_days',
            'vk_ndt_accessors', 'vk_ndt_with_date_fields', 'vk_ndt_with_time_fields', 'vk_ndt_months', 'vk_mdf_from_ol_with', 'vk_dt_map_local_any_zone',
-           'vk_dt_with_year_any_zone', 'vk_dt_with_month_day_any_zone', 'vk_dt_with_day0_ordinal_any_zone', 'vk_dt_with_clock_any_zone', 'vk_dt_months_any_zone', 'vk_dt_days_any_zone'],
+           'vk_dt_with_year_any_zone', 'vk_dt_with_month_day_any_zone', 'vk_dt_with_day0_ordinal_any_zone', 'vk_dt_with_clock_any_zone', 'vk_dt_months_any_zone', 'vk_dt_days_any_zone', 'vk_dt_with_time_any_zone_light'],
      kani_thorough=['vk_dt_with_time_any_zone'],
      kani_timeout=3000,
      twin=['week', 'zoned'],
@@ -192,14 +191,14 @@ prop('C16',
      title='The TZif and TZ-rule readers accept well-formed data and survive everything else',
      verus=['tz', 'tzrule'],
      kani=['vk_tzif_header', 'vk_tzif_header_truncated', 'vk_tzif_read_be', 'vk_tzstring_offset', 'vk_tzstring_rule_time', 'vk_tzstring_rule_time_extended'],
-     bounded=['vk_tz_validate_bounded', 'vk_tz_find_type_bounded', 'vk_tz_from_local_classify_bounded', 'vk_tzif_state_layout_bounded'],
+     bounded=['vk_tz_validate_bounded', 'vk_tz_find_type_bounded', 'vk_tz_from_local_classify_bounded', 'vk_tzif_state_layout_bounded', 'vk_tzstring_rule_day_bounded'],
      twin=['tz'],
      uncovered=['the record loops of the TZif parser (transitions, local time types, leap seconds, indicator pairs, footer) and the TZ-string grammar (iterator adapters, Vec, str::from_utf8): CBMC did not finish on 52-byte / 12-byte symbolic inputs in 20 min, so only the native sweep covers them',
                 'acceptance of every file a conforming writer emits (a statement over generated files, not a contract); only the 10 synthetic files + 15 rules of the twin',
                 'that the POSIX rule lookups select the prescribed type (only safety / shape / ordering proved)', 'leap-second records'],
      text='Proved (Verus, unbounded, real text): validate() returning Ok implies well-formedness; LocalTimeType::new / with_offset accept only offsets inside (-24h, 24h); TimeZoneName::new accepts exactly 3..7 '
           'characters from [0-9A-Za-z+-] and stores them; RuleDay constructors and AlternateTime::new accept exactly the documented ranges; on a validated zone both lookups (table and POSIX rule, incl. from_timespec) never overflow or index '
-          'out of bounds for any file-supplied 64-bit transition time, every instant and every wall-clock time, and every candidate they return is sound. Kani (complete, loop-free): Header::new over every 44-byte header (accepted exactly with the magic, a known version and consistent counts; the six counts are the big-endian fields; 44 bytes consumed), every truncated header refused, read_be_i32/i64; parse_offset / parse_rule_time / parse_rule_time_extended for every outcome of the digit scanner (sign on the whole of h:m:s, exact ranges, no overflow); bounded: State::new lays out the seven fields with exactly the announced lengths and refuses a block shorter than announced (blocks up to 52 bytes). Bounded Kani stand-ins: validate() accepts exactly well-formed tables; instant lookup. Bounded native stand-in (tz twin, through the public '
+          'out of bounds for any file-supplied 64-bit transition time, every instant and every wall-clock time, and every candidate they return is sound. Kani (complete, loop-free): Header::new over every 44-byte header (accepted exactly with the magic, a known version and consistent counts; the six counts are the big-endian fields; 44 bytes consumed), every truncated header refused, read_be_i32/i64; parse_offset / parse_rule_time / parse_rule_time_extended for every outcome of the digit scanner (sign on the whole of h:m:s, exact ranges, no overflow); bounded: RuleDay::parse over the contract of the integer scanner (which constructor gets which number in which order, separators, default 02:00:00, the time parser of the format version); State::new lays out the seven fields with exactly the announced lengths and refuses a block shorter than announced (blocks up to 52 bytes). Bounded Kani stand-ins: validate() accepts exactly well-formed tables; instant lookup. Bounded native stand-in (tz twin, through the public '
           'TZ=:/file and TZ=rule route on fresh threads): files written by an independent TZif writer and POSIX rules yield exactly the modelled offsets, gaps and folds; ~700 structured '
           'mutations (truncations, header-count and 64-bit-time extremes, random bytes, mutated TZ strings) never panic.')
 
